@@ -3,6 +3,8 @@ CONSTANTS LeafSet = "small"
           Deep = TRUE
           Wide3 = FALSE
           TableWide = FALSE
+          StrangeWide = FALSE
+          Only = "all"
 INIT Init
 NEXT Next
 INVARIANT RebuildStep
